@@ -57,6 +57,11 @@ def pick(table, i):
     return table[i]
 
 
+def of(values, i):
+    """values[i] as a concrete value, for a list of ints and a symbolic selector i"""
+    return [(v,) for v in values][i][0]
+
+
 def selb(b):
     """concrete value of a symbolic bool (the solver branches on it)"""
     if b:
@@ -66,10 +71,12 @@ def selb(b):
 
 def sel(i, n):
     """concrete value of selector i known to be in range(n)"""
+    # a list of 1-tuples: indexing a list of plain ints may yield a *symbolic* element
+    # (CrossHair models it as an array select); boxed elements force one branch per value
     r = _RANGES.get(n)
     if r is None:
-        r = _RANGES[n] = list(range(n))
-    return r[i]
+        r = _RANGES[n] = [(v,) for v in range(n)]
+    return r[i][0]
 
 
 def begin(case=None):
